@@ -35,7 +35,10 @@ func (h *c03Hist) put(k int) string {
 
 func c03ChronLine(rng *rand.Rand, forceName bool) string {
 	if forceName || rng.Intn(3) == 0 {
-		names := []string{"a", "swamp", "abcdefghijkl", "s/r/w"}
+		// name lengths 3, 4, 6, 12: a crash before/inside the name write shifts later block headers by
+		// that many bytes; these shifts put small fields under the reader's CompressedSize, other
+		// lengths make readNextBlock allocate up to 4 GiB per image (C04's defect) and the run crawl
+		names := []string{"s/w", "swmp", "swamp1", "abcdefghijkl"}
 		return "chron name " + names[rng.Intn(len(names))]
 	}
 	return fmt.Sprintf("chron cfg %d %s", c02Pick(rng, 600, 1500, 4000, 16384), []string{"0.2", "0.3", "0.5"}[rng.Intn(3)])
